@@ -39,6 +39,13 @@ fn run_all(sp: usize, bytes: &[u8]) -> [Outcome3; 3] {
         fn go<E: EndianParse + 'static>(_e: E, bytes: &[u8]) -> [Outcome3; 3] {
             let a = classify(subject(|| ElfBytes::<E>::minimal_parse(bytes).map(|_| ())));
             let b = classify(subject(|| ElfStream::<E, _>::open_stream(Cursor::new(bytes.to_vec())).map(|_| ())));
+            // a reader handed over at another position (the caller sniffed the magic) must be judged alike
+            let b2 = classify(subject(|| {
+                let mut c = Cursor::new(bytes.to_vec());
+                c.set_position(if bytes.len() > 20 { 17 } else { bytes.len() as u64 });
+                ElfStream::<E, _>::open_stream(c).map(|_| ())
+            }));
+            let b = if b2 == b { b } else { Outcome3::Panic(format!("open_stream judges the file differently when the reader does not start at 0: {:?} at 0, {:?} at 17", b, b2)) };
             let c = if bytes.len() >= 16 { classify(subject(|| elf::file::parse_ident::<E>(&bytes[..16]).map(|_| ()))) } else { Outcome3::OtherErr };
             [a, b, c]
         }
@@ -146,7 +153,11 @@ impl Space for IdentSweep {
                 });
                 let who = format!("{}::<{}>", ENTRY[ei], SPEC_NAMES[sp]);
                 if let Outcome3::Panic(m) = r {
-                    out.violate(format!("panic:{} in {}", ENTRY[ei], panic_site(m)), format!("{desc}: {m}"));
+                    if m.starts_with("open_stream judges") {
+                        out.violate(format!("reader-position-changes-the-verdict:{}", ENTRY[ei]), format!("{desc}: {m}"));
+                    } else {
+                        out.violate(format!("panic:{} in {}", ENTRY[ei], panic_site(m)), format!("{desc}: {m}"));
+                    }
                     continue;
                 }
                 // the gate itself, independent of everything else: a byte outside the spec's set never
